@@ -1174,6 +1174,19 @@ class Interp:
                 return cls(*args)
             return SObj(cls, {"args": tuple(args)})
         mod = cls.__module__ or ""
+        if issubclass(cls, tuple) and hasattr(cls, "_fields") and not (deep_concrete(args) and deep_concrete(kwargs)):
+            # collections.namedtuple holding model values: a tuple with named fields
+            from .frames import _NamedRow
+
+            names = list(cls._fields)
+            vals = list(args) + [None] * (len(names) - len(args))
+            for k, v in kwargs.items():
+                if k not in names:
+                    raise PyRaise(TypeError, (f"unexpected keyword {k}",))
+                vals[names.index(k)] = v
+            if len(args) > len(names):
+                raise PyRaise(TypeError, ("too many positional arguments",))
+            return _NamedRow(vals, names)
         if not mod.startswith(REPO_PREFIXES):
             return self.native(cls, args, kwargs)
         obj = SObj(cls, {})
